@@ -65,8 +65,12 @@ def fresh_functions(units):
     """Functions (by name, over both units) whose non-NULL result is a fresh allocation owned by the caller."""
     from .tree import _fresh_sources
     fresh = set()
-    for u in units.values():
-        fresh |= _fresh_sources(u)
+    for _round in range(4):
+        before = len(fresh)
+        for u in units.values():
+            fresh |= _fresh_sources(u, known=fresh | {'cJSON_malloc'})
+        if len(fresh) == before:
+            break
     # public creators of cJSON.c are visible to Utils by name; wrappers returning a fresh callee's result
     changed = True
     while changed:
@@ -565,7 +569,7 @@ class OwnAnalyzer:
             outs.append((s2, tv))
             return outs
         # 4. fresh results
-        if field == 'allocate' or cn in self.fresh or cn == 'cJSON_malloc':
+        if (field == 'allocate' or cn in self.fresh or cn == 'cJSON_malloc') and cn not in CONSUME_ALWAYS:
             self.checked['alloc'] += 1
             outs = []
             s_ok, tv = self.new_token(st, c)
